@@ -58,6 +58,9 @@ def evaluate(mode: str, items, extra_fn=None, shards: int = 8, impl_fn=None):
     return recs
 
 
+TIE_EXCUSES = {"value": False}   # set by properties whose predicate itself rounds (C03, C06, C08)
+
+
 def classify(rec):
     """-> 'ok' | 'tie' | 'holds' | 'corr' | 'build' | 'harness'"""
     if not rec["built"]:
@@ -66,6 +69,9 @@ def classify(rec):
     if "bad" in r:
         return "harness"
     if r.get("holds") == "0":
+        if TIE_EXCUSES["value"] and r.get("tie") == "1":
+            # the predicate rounds exactly where binary64 lands a hair beside the tie: outside the compared domain
+            return "tie"
         return "holds"
     if r.get("agree") == "0":
         if r.get("tie") == "1":
